@@ -669,6 +669,9 @@ class G:
             else:
                 s = self.action(depth)
                 out.append(s)
+                if self.p(0.04):
+                    out.append(self.format_stmt())
+                    self.hit("d:format-in-exec")
                 if in_loop and self.p(0.08):
                     out.append(St([self.kw(self.ch(["cycle", "exit"]))]))
                     self.hit("s:cycle-exit")
@@ -1089,15 +1092,20 @@ class G:
                 ["3", "(", "I2", ",", "1X", ")"], ["'lit'"], ['"q"'], ["L1"], ["1P", ",", "E10.3"], ["G12.5"],
                 ["T10"], ["2", "(", "F8.2", ",", "2", "(", "I1", ")", ")"], ["D12.4"], ["SP"], ["BN"], [":"],
                 ["TL3"], ["'it''s'"], ["'a,b)('"], ["EN12.3"], ["B8"], ["O4"], ["Z8.8"]]
+        f08 = False
         for i in range(n):
             if i:
                 items.append(",")
             it = self.ch(pool)
+            if self.f08ok() and i == n - 1 and self.p(0.15):
+                it = ["*", "(", "I5", ",", "1X", ")"]      # unlimited format repeat (F2008)
+                f08 = True
+                self.hit("d:format-unlimited-repeat")
             if it == ["/"] or it == [":"]:
                 if items and items[-1] == ",":
                     pass
             items += it
-        return St([self.kw("format"), "("] + items + [")"], label=self.new_label())
+        return St([self.kw("format"), "("] + items + [")"], label=self.new_label(), f08=f08)
 
     def derived_type(self):
         self.hit("d:derivedtype")
